@@ -143,12 +143,21 @@ def is_pure_stmt(st):
     return False
 
 
+def is_context(node):
+    """`context` or `req.environ['placement.context']`"""
+    if isinstance(node, ast.Name):
+        return node.id == 'context'
+    return (isinstance(node, ast.Subscript) and isinstance(node.value, ast.Attribute)
+            and dotted(node.value) == 'req.environ' and isinstance(node.slice, ast.Constant)
+            and node.slice.value == 'placement.context')
+
+
 def policy_use(fn, funcs, mod, depth=0):
     """-> (rule constant name, check_first, has_target)"""
     body = fn.body
     for i, st in enumerate(body):
         if isinstance(st, ast.Expr) and isinstance(st.value, ast.Call) and isinstance(st.value.func, ast.Attribute) \
-                and st.value.func.attr == 'can' and dotted(st.value.func.value) == 'context':
+                and st.value.func.attr == 'can' and is_context(st.value.func.value):
             call = st.value
             rule = dotted(call.args[0])
             target = any(kw.arg == 'target' for kw in call.keywords)
